@@ -6,10 +6,13 @@ Property theorems only (helper lemmas: TFVerif/Proofs/Frame.lean).  `Frame.catRo
 `TensorFrame.__eq__`, `get_col_feat` and the constructor (TFVerif/Model/Frame.lean); they are generic
 in the per-feature operations `ops : FeatOps Φ`, and `spec : FeatSpec ops κ τ ω` states that those
 operations refine the Python-list operations on a rows x columns table of cells.  `denseSpec`
-instantiates the theorems for dense tensors; the C05/C06 refinement theorems are the instances for
-the ragged containers.
+instantiates the theorems for dense tensors; `featSpec` (proved in Proofs/FrameRagged.lean from the
+C05/C06 refinement lemmas) instantiates them for the storage the driver runs — dense tensors,
+`MultiNestedTensor`, `MultiEmbeddingTensor` and dicts of `MultiNestedTensor`: the `_ragged`
+corollaries in the last section.
 -/
 import TFVerif.Proofs.Frame
+import TFVerif.Proofs.FrameRagged
 
 namespace TFVerif.C08
 open TFVerif TFVerif.TF
@@ -405,5 +408,177 @@ example :
     (Frame.make O [("numerical", ⟨1, none, [[[1]]]⟩)] [("numerical", ["a"])] (some [1]) none).isSome = true ∧
     Frame.make (featOps eqI) [("numerical", Feat.flat [1, 2])] [("numerical", ["a"])] (none : Option (List Int)) none = none := by
   decide
+
+/-! ### the ragged containers (instances of the theorems above at `featOps` / `featSpec`)
+
+`featSpec cl` (TFVerif/Proofs/FrameRagged.lean, built from the C05/C06 refinement theorems) is the
+specification of the storage the executable driver runs: dense tensors, `MultiNestedTensor`,
+`MultiEmbeddingTensor` and dicts of `MultiNestedTensor`, with `wf` = the C05 representation
+invariants; `cl` is the element closeness of `allclose(..., equal_nan=True)`, reflexive. -/
+
+section ragged
+variable {α : Type}
+
+/-- **Row partition law, ragged containers included.** -/
+theorem row_partition_law_ragged (cl : α → α → Bool) (hcl : ∀ v, cl v v = true) (closeY : β → β → Bool)
+    (hcy : ∀ v, closeY v v = true) {f : Frame (Feat α) β} {n : Nat} (hwf : f.WF (featSpec cl) n)
+    (hne : f.feats ≠ []) {ix0 : Index} {ixs : List Index} {ps0 : List Nat} {pss : List (List Nat)}
+    (hps : All2 (fun ix ps => ix.positions n = some ps) (ix0 :: ixs) (ps0 :: pss))
+    (hflat : (ps0 :: pss).flatten = List.range n) :
+    ∃ parts g, mapOpt (f.getitem (featOps cl)) (ix0 :: ixs) = some parts ∧
+      Frame.catRow (featOps cl) parts = some g ∧ g.WF (featSpec cl) n ∧ SameContent (featSpec cl) g f ∧
+      g.eq (featOps cl) closeY f = true ∧ f.eq (featOps cl) closeY g = true :=
+  row_partition_law (featSpec cl) closeY hcy (Cell.close_refl hcl) hwf hne hps hflat
+
+open RaggedEx (frame frame2 frame_wf left2 right2 mnt3 met3 ids3 mask3 nestedOf embOf dictOf) in
+/-- non-vacuity: `cat([tf[0:1], tf[1:1], tf[1:3]], dim=0) == tf` on the mixed frame (the third part is
+    a non-zero-based view; one part is empty); the re-assembled nested / embedding storage is the
+    original storage. -/
+example : frame.WF (featSpec RaggedEx.eqI) 3 ∧ frame.feats ≠ [] ∧ [1, 0, 2].sum = 3 ∧
+    ((mapOpt (frame.getitem (featOps RaggedEx.eqI)) (cutSlices 0 [1, 0, 2])).bind (Frame.catRow (featOps RaggedEx.eqI))).map
+      (fun g => (g.eq (featOps RaggedEx.eqI) RaggedEx.eqI frame, frame.eq (featOps RaggedEx.eqI) RaggedEx.eqI g, g.y)) = some (true, true, some [10, 20, 30]) ∧
+    ((mapOpt (frame.getitem (featOps RaggedEx.eqI)) (cutSlices 0 [1, 0, 2])).bind (Frame.catRow (featOps RaggedEx.eqI))).map
+      (fun g => (nestedOf g "multicategorical", embOf g "embedding")) = some (some mnt3, some met3) :=
+  ⟨frame_wf, List.cons_ne_nil _ _, by decide, by decide, by decide⟩
+
+/-- **Column partition law, ragged containers included.** -/
+theorem col_partition_law_ragged (cl : α → α → Bool) (hcl : ∀ v, cl v v = true) (closeY : β → β → Bool)
+    (hcy : ∀ v, closeY v v = true) {f : Frame (Feat α) β} {n : Nat} (hwf : f.WF (featSpec cl) n)
+    (hne : f.feats ≠ []) {p0 : Frame (Feat α) β} {rest : List (Frame (Feat α) β)}
+    (hparts : ∀ p ∈ p0 :: rest, p.WF (featSpec cl) n)
+    (hnames : ∀ s, ((p0 :: rest).flatMap fun p => (assoc s p.names).getD []) = (assoc s f.names).getD [])
+    (hnodup : ∀ s ns, assoc s f.names = some ns → ns.Nodup)
+    (hy : (p0 :: rest).filterMap (·.y) = f.y.toList)
+    (hfeat : ∀ s φ, assoc s f.feats = some φ →
+      (∀ φi ∈ (p0 :: rest).filterMap (fun p => assoc s p.feats), featTag cl φi = featTag cl φ) ∧
+      ((p0 :: rest).filterMap fun p => assoc s p.feats).flatMap (featMeta cl) = featMeta cl φ ∧
+      ∀ r, r < n → ((p0 :: rest).filterMap fun p => assoc s p.feats).flatMap (fun φi => (featGrid cl φi).getD r [])
+        = (featGrid cl φ).getD r []) :
+    ∃ g, Frame.catCol (featOps cl) (p0 :: rest) = some g ∧ g.WF (featSpec cl) n ∧
+      (∀ s, assoc s g.names = assoc s f.names) ∧ g.y = f.y ∧
+      (∀ s φ, assoc s f.feats = some φ → ∃ φ', assoc s g.feats = some φ' ∧
+        featGrid cl φ' = featGrid cl φ ∧ featTag cl φ' = featTag cl φ ∧ featMeta cl φ' = featMeta cl φ) ∧
+      g.eq (featOps cl) closeY f = true ∧ f.eq (featOps cl) closeY g = true :=
+  col_partition_law (featSpec cl) closeY hcy (Cell.close_refl hcl) hwf hne hparts hnames hnodup hy hfeat
+
+open RaggedEx (frame frame2 frame_wf left2 right2 mnt3 met3 ids3 mask3 nestedOf embOf dictOf) in
+/-- non-vacuity: the nested + embedding frame split into `{tags, e1}` and `{cats, e2}` + target
+    (stypes in a different order in the second part); the parts are well formed, names and target
+    partition, and the concatenation compares equal to the original and restores its storage
+    (ragged cells interleaved row by row, embedding offsets shifted). -/
+example : (left2.WF (featSpec RaggedEx.eqI) 3 ∧ right2.WF (featSpec RaggedEx.eqI) 3 ∧ frame2.WF (featSpec RaggedEx.eqI) 3) ∧
+    (∀ s, ([left2, right2].flatMap fun p => (assoc s p.names).getD []) = (assoc s frame2.names).getD []) ∧
+    [left2, right2].filterMap (·.y) = frame2.y.toList ∧
+    (Frame.catCol (featOps RaggedEx.eqI) [left2, right2]).map
+      (fun g => (g.eq (featOps RaggedEx.eqI) RaggedEx.eqI frame2, frame2.eq (featOps RaggedEx.eqI) RaggedEx.eqI g)) = some (true, true) ∧
+    (Frame.catCol (featOps RaggedEx.eqI) [left2, right2]).map
+      (fun g => (nestedOf g "multicategorical", embOf g "embedding")) = some (some mnt3, some met3) := by
+  refine ⟨⟨frame_wf_of_checks RaggedEx.eqI left2 3 (by decide), frame_wf_of_checks RaggedEx.eqI right2 3 (by decide),
+    frame_wf_of_checks RaggedEx.eqI frame2 3 (by decide)⟩, ?_, by decide, by decide, by decide⟩
+  intro s
+  show (assoc s [("multicategorical", ["tags"]), ("embedding", ["e1"])]).getD [] ++
+      ((assoc s [("embedding", ["e2"]), ("multicategorical", ["cats"])]).getD [] ++ []) =
+    (assoc s [("multicategorical", ["tags", "cats"]), ("embedding", ["e1", "e2"])]).getD []
+  have key : ∀ (k1 k2 : String) (v1 v2 : List String), ¬ k1 = s → ¬ k2 = s →
+      assoc s [(k1, v1), (k2, v2)] = none := by
+    intro k1 k2 v1 v2 a b; simp [assoc, a, b]
+  by_cases h1 : "multicategorical" = s
+  · subst h1; decide
+  · by_cases h2 : "embedding" = s
+    · subst h2; decide
+    · rw [key _ _ _ _ h1 h2, key _ _ _ _ h2 h1, key _ _ _ _ h1 h2]; rfl
+
+/-- **`==` decides content, ragged containers included.** -/
+theorem eq_iff_ragged (cl : α → α → Bool) (closeY : β → β → Bool) {a b : Frame (Feat α) β} {na nb : Nat}
+    (ha : a.WF (featSpec cl) na) (hb : b.WF (featSpec cl) nb) :
+    a.eq (featOps cl) closeY b = true ↔
+      na = nb ∧ TargetClose closeY a.y b.y ∧ (∀ s, assoc s a.names = assoc s b.names) ∧
+      ∀ s φ, assoc s a.feats = some φ → ∃ ψ, assoc s b.feats = some ψ ∧
+        featTag cl φ = featTag cl ψ ∧ featMeta cl φ = featMeta cl ψ ∧
+        All2 (All2 (Cell.close cl)) (featGrid cl φ) (featGrid cl ψ) :=
+  eq_iff (featSpec cl) closeY ha hb
+
+/-- ... read back on the containers: equal frames hold, under the same stype, nested tensors with
+    the same number of columns and pairwise close cells `m[i, j]` (so also equal cell lengths), and
+    embedding tensors with the same column widths and close cells. -/
+theorem eq_ragged_cells (cl : α → α → Bool) (closeY : β → β → Bool) {a b : Frame (Feat α) β} {na nb : Nat}
+    (ha : a.WF (featSpec cl) na) (hb : b.WF (featSpec cl) nb) (h : a.eq (featOps cl) closeY b = true) :
+    (∀ s m, assoc s a.feats = some (.nested m) → ∃ m', assoc s b.feats = some (.nested m') ∧
+      m.numCols = m'.numCols ∧ All2 (All2 (All2 fun x y => cl x y = true)) m.grid.rows m'.grid.rows) ∧
+    (∀ s m, assoc s a.feats = some (.emb m) → ∃ m', assoc s b.feats = some (.emb m') ∧
+      m.colWidths = m'.colWidths ∧ All2 (All2 (All2 fun x y => cl x y = true)) m.grid.rows m'.grid.rows) := by
+  obtain ⟨_, _, _, hf⟩ := (eq_iff_ragged cl closeY ha hb).mp h
+  constructor
+  · intro s m hs
+    obtain ⟨ψ, hψ, ht, hm, hg⟩ := hf s _ hs
+    have hwψ := (hb.feat_ok s ψ (assoc_mem hψ)).1
+    obtain ⟨m', rfl⟩ := inv_nested cl hwψ ht.symm
+    have hwm := (ha.feat_ok s _ (assoc_mem hs)).1
+    have := ((nestedSpec' cl).close_iff m m' hwm hwψ).mpr ⟨ht, hm, hg⟩
+    exact ⟨m', hψ, (mntClose_iff cl hwm hwψ).mp this⟩
+  · intro s m hs
+    obtain ⟨ψ, hψ, ht, hm, hg⟩ := hf s _ hs
+    have hwψ := (hb.feat_ok s ψ (assoc_mem hψ)).1
+    obtain ⟨m', rfl⟩ := inv_emb cl hwψ ht.symm
+    have hwm := (ha.feat_ok s _ (assoc_mem hs)).1
+    have := ((embSpec' cl).close_iff m m' hwm hwψ).mpr ⟨ht, hm, hg⟩
+    exact ⟨m', hψ, (metClose_iff cl hwm hwψ).mp this⟩
+
+open RaggedEx (frame frame2 frame_wf left2 right2 mnt3 met3 ids3 mask3 nestedOf embOf dictOf) in
+/-- non-vacuity: one value inside a ragged cell changed (`6 -> 0`); the same values cut into cells
+    differently (offset `4 -> 5`); one embedding value changed; the items of the dict feature in
+    another order (still equal, like Python dicts). -/
+example :
+    frame.eq (featOps RaggedEx.eqI) RaggedEx.eqI { frame with feats := ("multicategorical",
+      .nested { mnt3 with values := [1, 2, 3, 4, 5, 0, 7, 8, 9] }) :: frame.feats.tail } = false ∧
+    frame.eq (featOps RaggedEx.eqI) RaggedEx.eqI { frame with feats := ("multicategorical",
+      .nested { mnt3 with offset := [0, 2, 3, 5, 7, 9, 9] }) :: frame.feats.tail } = false ∧
+    frame2.eq (featOps RaggedEx.eqI) RaggedEx.eqI { frame2 with feats := [("multicategorical", .nested mnt3),
+      ("embedding", .emb { met3 with values := [[1, 2, 3], [4, 5, 6], [7, 8, 0]] })] } = false ∧
+    frame.eq (featOps RaggedEx.eqI) RaggedEx.eqI { frame with feats := [("multicategorical", .nested mnt3), ("embedding", .emb met3),
+      ("text_tokenized", .dict [("attention_mask", mask3), ("input_ids", ids3)]),
+      ("numerical", .dense ⟨1, none, [[[5]], [[6]], [[7]]]⟩)] } = true := by
+  decide
+
+/-- **Lookup is correct, ragged containers included.** -/
+theorem lookup_correct_ragged (cl : α → α → Bool) {f : Frame (Feat α) β} {n : Nat} (hwf : f.WF (featSpec cl) n)
+    (hd : (allNames f.names).Nodup) {s name : String} {ns : List String} {idx : Nat} {φ : Feat α}
+    (hns : assoc s f.names = some ns) (hi : ns[idx]? = some name) (hφ : assoc s f.feats = some φ) :
+    ∃ c, f.getColFeat (featOps cl) name = some (c, s) ∧ FeatWF c ∧
+      featGrid cl c = (featGrid cl φ).map (fun r => Grid.pick r [idx]) ∧
+      featTag cl c = featTag cl φ ∧ featMeta cl c = Grid.pick (featMeta cl φ) [idx] :=
+  lookup_correct (featSpec cl) hwf hd hns hi hφ
+
+open RaggedEx (frame frame2 frame_wf left2 right2 mnt3 met3 ids3 mask3 nestedOf embOf dictOf) in
+/-- non-vacuity: column `cats` of the nested feature (cells `[3], [5,6,7], []`), column `e2` of the
+    embedding feature (width 1), the tokenized text column (both keys). -/
+example : (allNames frame.names).Nodup ∧
+    (frame.getColFeat (featOps RaggedEx.eqI) "cats").map (fun c => (c.1.asNested, c.2)) =
+      some (some { numRows := 3, numCols := 1, values := [3, 5, 6, 7], offset := [0, 1, 4, 4] }, "multicategorical") ∧
+    (frame.getColFeat (featOps RaggedEx.eqI) "e2").map (fun c => (c.1.asEmb, c.2)) =
+      some (some { numRows := 3, numCols := 1, width := 1, values := [[3], [6], [9]], offset := [0, 1] }, "embedding") ∧
+    (frame.getColFeat (featOps RaggedEx.eqI) "txt").map (fun c => (c.1.asDict, c.2)) =
+      some (some [("input_ids", ids3), ("attention_mask", mask3)], "text_tokenized") := by
+  decide
+
+/-- **The constructor accepts exactly the consistent frames, ragged containers included.** -/
+theorem validate_iff_ragged (cl : α → α → Bool) {f : Frame (Feat α) β}
+    (hfw : ∀ s φ, (s, φ) ∈ f.feats → FeatWF φ) (hk1 : (keys f.feats).Nodup) (hk2 : (keys f.names).Nodup) :
+    f.validate (featOps cl) = true ↔ f.WF (featSpec cl) (f.numRows (featOps cl)) :=
+  validate_iff (featSpec cl) hfw hk1 hk2
+
+open RaggedEx (frame frame2 frame_wf left2 right2 mnt3 met3 ids3 mask3 nestedOf embOf dictOf) in
+/-- non-vacuity: a nested feature with 2 rows next to an embedding feature with 3 rows, and a nested
+    feature with 2 columns under one name, are rejected; the mixed frame is accepted. -/
+example :
+    Frame.make (featOps RaggedEx.eqI) [("multicategorical", .nested { numRows := 2, numCols := 1, values := [1], offset := [0, 1, 1] }),
+        ("embedding", .emb met3)]
+      [("multicategorical", ["tags"]), ("embedding", ["e1", "e2"])] (none : Option (List Int)) none = none ∧
+    Frame.make (featOps RaggedEx.eqI) [("multicategorical", .nested mnt3)] [("multicategorical", ["tags"])]
+      (none : Option (List Int)) none = none ∧
+    (Frame.make (featOps RaggedEx.eqI) frame.feats frame.names frame.y none).isSome = true := by
+  decide
+
+end ragged
 
 end TFVerif.C08
